@@ -1,4 +1,261 @@
+/-
+  C01 — polynomial ring arithmetic is exact in Z[x̄] and Z_M[x̄].
+  The reference model `LP.MPoly` (the one every C result is compared with on every run) is proved to be
+  the ring `MvPolynomial ℕ R` with `R = ℤ` or `R = ZMod M`: the denotation `den` maps the model's
+  add / neg / sub / mul / scalar product / power / fused multiply-add / shift / constant to the ring
+  operations, for all term lists (canonical or not), all moduli `M ≥ 2`.
+-/
 import LP.Model.MPoly
+import LP.Props.C17
+import Mathlib.Algebra.MvPolynomial.Basic
+import Mathlib.Algebra.MvPolynomial.Eval
+import Mathlib.Algebra.MvPolynomial.CommRing
+
 namespace LP
-theorem C01_placeholder : True := trivial
+open MvPolynomial
+
+/-- a monomial as an exponent vector -/
+noncomputable def Mono.toFinsupp (m : Mono) : ℕ →₀ ℕ := (m.map (fun p => Finsupp.single p.1 p.2)).sum
+
+namespace Mono
+
+theorem toFinsupp_nil : toFinsupp [] = 0 := rfl
+theorem toFinsupp_cons (p : Nat × Nat) (m : Mono) : toFinsupp (p :: m) = Finsupp.single p.1 p.2 + toFinsupp m := by
+  simp [toFinsupp]
+theorem toFinsupp_append (a b : Mono) : toFinsupp (a ++ b) = toFinsupp a + toFinsupp b := by
+  induction a with
+  | nil => simp [toFinsupp_nil]
+  | cons p a ih => rw [List.cons_append, toFinsupp_cons, toFinsupp_cons, ih, add_assoc]
+
+theorem toFinsupp_insertVar (x e : Nat) (m : Mono) : toFinsupp (insertVar x e m) = Finsupp.single x e + toFinsupp m := by
+  induction m with
+  | nil =>
+    unfold insertVar
+    split_ifs with h
+    · subst h; simp [toFinsupp_nil]
+    · simp [toFinsupp_cons, toFinsupp_nil]
+  | cons p m ih =>
+    obtain ⟨y, f⟩ := p
+    unfold insertVar
+    split_ifs with h1 h2 h3
+    · subst h1; simp
+    · rw [toFinsupp_cons]
+    · subst h3
+      rw [toFinsupp_cons, toFinsupp_cons]
+      simp only
+      rw [Finsupp.single_add, add_comm (Finsupp.single x f), add_assoc]
+    · rw [toFinsupp_cons, ih, toFinsupp_cons]
+      simp only
+      rw [← add_assoc, ← add_assoc, add_comm (Finsupp.single y f)]
+
+theorem toFinsupp_norm (m : Mono) : toFinsupp (norm m) = toFinsupp m := by
+  unfold norm
+  induction m with
+  | nil => rfl
+  | cons p m ih => rw [List.foldr_cons, toFinsupp_insertVar, ih, toFinsupp_cons]
+
+theorem toFinsupp_mul (a b : Mono) : toFinsupp (mul a b) = toFinsupp a + toFinsupp b := by
+  unfold mul; rw [toFinsupp_norm, toFinsupp_append]
+
+end Mono
+
+namespace MPoly
+
+variable (R : Type) [CommRing R]
+
+/-- the polynomial denoted by a term list -/
+noncomputable def den (p : MPoly) : MvPolynomial ℕ R :=
+  (p.map (fun t => monomial (Mono.toFinsupp t.1) ((t.2 : Int) : R))).sum
+
+variable {R}
+
+theorem den_nil : den R [] = 0 := rfl
+theorem den_cons (t : Term) (p : MPoly) : den R (t :: p) = monomial (Mono.toFinsupp t.1) ((t.2 : Int) : R) + den R p := by
+  simp [den]
+theorem den_append (p q : MPoly) : den R (p ++ q) = den R p + den R q := by
+  induction p with
+  | nil => simp [den_nil]
+  | cons t p ih => rw [List.cons_append, den_cons, den_cons, ih, add_assoc]
+
+/-- the ring `K` is faithfully represented in `R`: normalising a coefficient does not change its image -/
+def Compatible (K : Ring) (R : Type) [CommRing R] : Prop := ∀ c : Int, ((norm K c : Int) : R) = ((c : Int) : R)
+
+theorem compatible_Z : Compatible none ℤ := fun _ => rfl
+theorem compatible_ZMod (M : Nat) (hM : 2 ≤ M) : Compatible (some M) (ZMod M) :=
+  fun c => C17_normalize_zmod M hM c
+
+variable {K : Ring} (hK : Compatible K R)
+include hK
+
+theorem den_insertTerm (m : Mono) (c : Int) (p : MPoly) :
+    den R (insertTerm K m c p) = monomial (Mono.toFinsupp m) ((c : Int) : R) + den R p := by
+  have zero_of : ∀ z : Int, norm K z = 0 → ((z : Int) : R) = 0 := by
+    intro z h; rw [← hK z, h]; simp
+  induction p with
+  | nil =>
+    unfold insertTerm
+    by_cases h : norm K c = 0
+    · rw [if_pos h, zero_of c h]; simp [den_nil]
+    · rw [if_neg h, den_cons, hK c]
+  | cons t p ih =>
+    obtain ⟨n, d⟩ := t
+    unfold insertTerm
+    by_cases h1 : Mono.lt m n = true
+    · rw [if_pos h1]
+      by_cases h2 : norm K c = 0
+      · rw [if_pos h2, zero_of c h2]; simp
+      · rw [if_neg h2, den_cons, hK c]
+    · rw [if_neg h1]
+      by_cases h3 : m = n
+      · rw [if_pos h3]
+        subst h3
+        by_cases h4 : norm K (c + d) = 0
+        · rw [if_pos h4, den_cons]
+          have := zero_of (c + d) h4
+          push_cast at this
+          simp only
+          rw [← add_assoc, ← map_add, this]; simp
+        · rw [if_neg h4, den_cons, den_cons]
+          simp only
+          rw [hK (c + d), ← add_assoc, ← map_add]; push_cast; rfl
+      · rw [if_neg h3, den_cons, ih, den_cons]
+        rw [← add_assoc, ← add_assoc, add_comm (monomial (Mono.toFinsupp n) _)]
+
+theorem den_normalize (p : MPoly) : den R (normalize K p) = den R p := by
+  unfold normalize
+  induction p with
+  | nil => rfl
+  | cons t p ih =>
+    rw [List.foldr_cons, den_insertTerm hK, ih, den_cons, Mono.toFinsupp_norm]
+
+/-- addition, negation and subtraction are exact -/
+theorem C01_add (p q : MPoly) : den R (add K p q) = den R p + den R q := by
+  unfold add; rw [den_normalize hK, den_append]
+
+theorem den_map_neg (p : MPoly) : den R (p.map (fun t => (t.1, -t.2))) = - den R p := by
+  induction p with
+  | nil => simp [den_nil]
+  | cons t p ih =>
+    rw [List.map_cons, den_cons, den_cons, ih]
+    simp only [Int.cast_neg, map_neg]
+    ring
+
+theorem C01_neg (p : MPoly) : den R (neg K p) = - den R p := by
+  unfold neg; rw [den_normalize hK, den_map_neg hK]
+
+theorem C01_sub (p q : MPoly) : den R (sub K p q) = den R p - den R q := by
+  unfold sub; rw [C01_add hK, C01_neg hK, sub_eq_add_neg]
+
+theorem den_mulTerm (m : Mono) (c : Int) (q : MPoly) :
+    den R (mulTerm m c q) = monomial (Mono.toFinsupp m) ((c : Int) : R) * den R q := by
+  unfold mulTerm
+  induction q with
+  | nil => simp [den_nil]
+  | cons t q ih =>
+    rw [List.map_cons, den_cons, den_cons, ih, mul_add]
+    simp only [Mono.toFinsupp_append, Int.cast_mul, monomial_mul]
+
+/-- multiplication is exact -/
+theorem C01_mul (p q : MPoly) : den R (mul K p q) = den R p * den R q := by
+  unfold mul
+  rw [den_normalize hK]
+  induction p with
+  | nil => simp [den_nil]
+  | cons t p ih =>
+    rw [List.flatMap_cons, den_append, ih, den_mulTerm hK, den_cons, add_mul]
+
+theorem C01_mulInt (p : MPoly) (c : Int) : den R (mulInt K p c) = C ((c : Int) : R) * den R p := by
+  unfold mulInt
+  rw [den_normalize hK]
+  induction p with
+  | nil => simp [den_nil]
+  | cons t p ih =>
+    rw [List.map_cons, den_cons, den_cons, ih, mul_add]
+    simp only [Int.cast_mul, C_mul_monomial]
+
+theorem C01_const (c : Int) : den R (const K c) = C ((c : Int) : R) := by
+  unfold const
+  rw [den_normalize hK, den_cons, den_nil, add_zero]
+  simp [Mono.toFinsupp_nil, C_apply]
+
+theorem C01_pow (p : MPoly) (n : Nat) : den R (pow K p n) = den R p ^ n := by
+  induction n with
+  | zero => unfold pow; rw [C01_const hK]; simp
+  | succ n ih => unfold pow; rw [C01_mul hK, ih, pow_succ]
+
+theorem C01_addMul (s a b : MPoly) : den R (addMul K s a b) = den R s + den R a * den R b := by
+  unfold addMul; rw [C01_add hK, C01_mul hK]
+
+theorem C01_subMul (s a b : MPoly) : den R (subMul K s a b) = den R s - den R a * den R b := by
+  unfold subMul; rw [C01_sub hK, C01_mul hK]
+
+/-- shift by a power of a variable -/
+theorem C01_shl (p : MPoly) (x n : Nat) : den R (shl K p x n) = X x ^ n * den R p := by
+  unfold shl
+  rw [den_normalize hK, den_mulTerm hK]
+  congr 1
+  rw [Mono.toFinsupp_cons, Mono.toFinsupp_nil, add_zero]
+  simp only [Int.cast_one]
+  rw [X_pow_eq_monomial]
+
+omit hK in
+/-- evaluation at an integer point is the ring evaluation of the denoted polynomial -/
+theorem C01_evalInt (p : MPoly) (asg : Nat → Int) : evalInt p asg = MvPolynomial.eval asg (den ℤ p) := by
+  have monoEval : ∀ (m : Mono) (a : Int), m.foldl (fun a q => a * asg q.1 ^ q.2) a =
+      a * (Mono.toFinsupp m).prod (fun i k => asg i ^ k) := by
+    intro m
+    induction m with
+    | nil => intro a; simp [Mono.toFinsupp_nil]
+    | cons q m ih =>
+      intro a
+      rw [List.foldl_cons, ih, Mono.toFinsupp_cons, Finsupp.prod_add_index' (by simp) (by intro i k l; exact pow_add _ _ _)]
+      rw [Finsupp.prod_single_index (by simp)]
+      ring
+  have gen : ∀ (p : MPoly) (acc : Int),
+      p.foldl (fun acc t => acc + t.2 * t.1.foldl (fun a q => a * asg q.1 ^ q.2) 1) acc = acc + MvPolynomial.eval asg (den ℤ p) := by
+    intro p
+    induction p with
+    | nil => intro acc; simp [den_nil]
+    | cons t p ih =>
+      intro acc
+      rw [List.foldl_cons, ih, den_cons, map_add, eval_monomial, monoEval]
+      simp only [Int.cast_id]
+      ring
+  unfold evalInt
+  rw [gen, zero_add]
+
+end MPoly
+
+/-! ### the two coefficient rings of the library -/
+
+/-- over Z -/
+theorem C01_Z (p q s : MPoly) (c : Int) (n x : Nat) :
+    MPoly.den ℤ (MPoly.add none p q) = MPoly.den ℤ p + MPoly.den ℤ q ∧
+    MPoly.den ℤ (MPoly.sub none p q) = MPoly.den ℤ p - MPoly.den ℤ q ∧
+    MPoly.den ℤ (MPoly.neg none p) = - MPoly.den ℤ p ∧
+    MPoly.den ℤ (MPoly.mul none p q) = MPoly.den ℤ p * MPoly.den ℤ q ∧
+    MPoly.den ℤ (MPoly.mulInt none p c) = C c * MPoly.den ℤ p ∧
+    MPoly.den ℤ (MPoly.pow none p n) = MPoly.den ℤ p ^ n ∧
+    MPoly.den ℤ (MPoly.addMul none s p q) = MPoly.den ℤ s + MPoly.den ℤ p * MPoly.den ℤ q ∧
+    MPoly.den ℤ (MPoly.subMul none s p q) = MPoly.den ℤ s - MPoly.den ℤ p * MPoly.den ℤ q ∧
+    MPoly.den ℤ (MPoly.shl none p x n) = X x ^ n * MPoly.den ℤ p :=
+  have h := MPoly.compatible_Z
+  ⟨MPoly.C01_add h p q, MPoly.C01_sub h p q, MPoly.C01_neg h p, MPoly.C01_mul h p q, by simpa using MPoly.C01_mulInt h p c,
+   MPoly.C01_pow h p n, MPoly.C01_addMul h s p q, MPoly.C01_subMul h s p q, MPoly.C01_shl h p x n⟩
+
+/-- over Z_M, every modulus M ≥ 2 (prime or composite) -/
+theorem C01_ZMod (M : Nat) (hM : 2 ≤ M) (p q s : MPoly) (c : Int) (n x : Nat) :
+    MPoly.den (ZMod M) (MPoly.add (some M) p q) = MPoly.den (ZMod M) p + MPoly.den (ZMod M) q ∧
+    MPoly.den (ZMod M) (MPoly.sub (some M) p q) = MPoly.den (ZMod M) p - MPoly.den (ZMod M) q ∧
+    MPoly.den (ZMod M) (MPoly.neg (some M) p) = - MPoly.den (ZMod M) p ∧
+    MPoly.den (ZMod M) (MPoly.mul (some M) p q) = MPoly.den (ZMod M) p * MPoly.den (ZMod M) q ∧
+    MPoly.den (ZMod M) (MPoly.mulInt (some M) p c) = C (c : ZMod M) * MPoly.den (ZMod M) p ∧
+    MPoly.den (ZMod M) (MPoly.pow (some M) p n) = MPoly.den (ZMod M) p ^ n ∧
+    MPoly.den (ZMod M) (MPoly.addMul (some M) s p q) = MPoly.den (ZMod M) s + MPoly.den (ZMod M) p * MPoly.den (ZMod M) q ∧
+    MPoly.den (ZMod M) (MPoly.subMul (some M) s p q) = MPoly.den (ZMod M) s - MPoly.den (ZMod M) p * MPoly.den (ZMod M) q ∧
+    MPoly.den (ZMod M) (MPoly.shl (some M) p x n) = X x ^ n * MPoly.den (ZMod M) p :=
+  have h := MPoly.compatible_ZMod M hM
+  ⟨MPoly.C01_add h p q, MPoly.C01_sub h p q, MPoly.C01_neg h p, MPoly.C01_mul h p q, MPoly.C01_mulInt h p c,
+   MPoly.C01_pow h p n, MPoly.C01_addMul h s p q, MPoly.C01_subMul h s p q, MPoly.C01_shl h p x n⟩
+
 end LP
